@@ -91,9 +91,61 @@ class C07(Prop):
                                 evs += [["poll", "0"], ["adv", "2"], ["fire", "0"], ["poll", "0"], ["poll", "0"]]
                             out.append(Case("time", fl, [("fb", ["1"]), ("pipe", [node])], evs,
                                             {"kind": "feedback", "m": m}))
+        # a stage DIRECTLY behind delay / observe_on whose own downstream ends early (take k): that stage has not been
+        # unsubscribed, it is still owed every item and the terminal of the source — counted by a tap
+        for mover in (["delay", "0"], ["delay", "2"], ["observeon"]):
+            for k in (1, 2):
+                for n_items in (2, 3, 5):
+                    # (a source that FAILS owes only a prefix: delay forwards the error at once, ahead of queued items)
+                    for term in ("c", None):
+                        for fl in ("local", "threads"):
+                            pipe = ["take", str(k), ["tap", mover + [["hot", "0"]]]]
+                            evs = [["sub"]]
+                            for i in range(n_items):
+                                evs += [["emit", "0", ["n", str(i + 1)]]]
+                                if i % 2 == 0:
+                                    evs += [["adv", "2"], ["run"]]
+                            if term is not None:
+                                evs += [["emit", "0", term]]
+                            evs += [["adv", "5"], ["run"], ["q", "tap"]]
+                            out.append(Case("time", fl, [("pipe", [pipe])], evs, {"kind": "starved-stage", "n": n_items}))
         return out
 
+    def starved_oracle(self, case, lines):
+        if any(e[0] == "emit" and isinstance(e[2], list) and e[2][0] == "e" for e in case.events):
+            return None
+        n = sum(1 for e in case.events if e[0] == "emit" and isinstance(e[2], list) and e[2][0] == "n")
+        # only complete schedules are judged: no live task left before the query
+        last = next((lines.get(k) or "" for k in range(len(case.events) - 2, -1, -1)
+                     if (lines.get(k) or "").startswith("o=")), "")
+        if " live=0 " not in last + " ":
+            return None
+        for k, e in enumerate(case.events):
+            b = lines.get(k) or ""
+            if b in ("PANIC", "HANG"):
+                return {"kind": b.lower(), "event": k, "detail": b}
+            if e[:2] == ["q", "tap"] and b.startswith("tap="):
+                got = [int(x) for x in b[5:-1].split(",") if x]
+                if got and got[0] != n:
+                    return {"kind": "stage-starved", "event": k,
+                            "detail": f"the stage directly behind the scheduler-moving operator saw {got[0]} of the "
+                                      f"source's {n} items although every task has run ({b})"}
+        return None
+
+    def _is_starved_shape(self, case):
+        f = case.field("pipe")
+        try:
+            return (f[0][0] == "take" and f[0][2][0] == "tap" and f[0][2][1][0] in ("delay", "observeon")
+                    and f[0][2][1][-1][0] == "hot" and case.events[-1][:2] == ["q", "tap"]
+                    and ["run"] in case.events[-3:] and not case.field("fb"))
+        except Exception:
+            return False
+
     def oracle(self, case, lines, model_lines=None):
+        if self._is_starved_shape(case):
+            f = self.starved_oracle(case, lines)
+            if f:
+                return f
         if case.field("fb"):
             # every value of the count-down arrives, in order, exactly once
             got = []
